@@ -431,6 +431,8 @@ def _install_twin_models():
     M.setdefault("alldiff_lt_twice", dict(doms=3, vars=[(0, 0), (1, 0), (2, 0)], props=[([0, 1, 2], "alldifferent", []), ([0, 2], "affine_leq", [1, -1, -1]), ([0, 1, 2], "alldifferent", []), ([0, 2], "affine_leq", [1, -1, -1])]))
     M.setdefault("max_eq_dummy", dict(doms=3, vars=[(0, 0), (1, 0), (2, 0)], props=[([0, 1, 2], "max_eq", []), ([0, 1, 2], "dummy", [])]))
     M.setdefault("lt_true", dict(doms=2, vars=[(0, 0), (1, 0)], props=[([0, 1], "affine_leq", [1, -1, -1]), ([0, 1], "affine_leq", [0, 0, 0])]))
+    # a variable with a zero coefficient: its wake-up mask is whatever get_triggers leaves in that cell
+    M.setdefault("lt_zero_mid", dict(doms=3, vars=[(0, 0), (1, 0), (2, 0)], props=[([0, 1, 2], "affine_leq", [1, 0, -1, -1])], D=1))
     M.setdefault("lt_swapped", dict(doms=2, vars=[(1, 0), (0, 0)], props=[([1, 0], "affine_leq", [1, -1, -1])]))
     # two constraints of the same type and arity whose complexities differ (relation: 3 x number of parameters), around a third one
     M.setdefault("two_relations", dict(doms=2, vars=[(0, 0), (1, 0)], props=[([0, 1], "relation", [0, 1, 1, 0, 1, 2, 2, 1, 0, 2]), ([0, 1], "alldifferent", []), ([1, 0], "relation", [S] * 2)], base=0))
@@ -578,9 +580,9 @@ def c15(tier, seed, only):
         jobs.append(dict(key="prop_ties", params=dict(cfg=cfg), label=f"ties/{cfg['alg']}/n={cfg['n']}/{cfg['params']}", flags=dict(loop_budget=4000)))
     # (b) no dependence on uninitialised memory, (c) history independence
     hist = [["other_solver_abandoned"], ["other_solver_exhausted"], ["minimize_first"], ["register_extras"], ["split"], ["init_twice"], ["other_solver_abandoned", "register_extras"], ["minimize_first", "other_solver_exhausted"], ["sibling_problem"], ["sibling_problem", "other_solver_abandoned"]]
-    models = ["lt", "alldiff3", "queens_like", "shared_twice", "count", "circuit3", "max_eq", "magic_like", "relation_alldiff", "element_iv", "gcc"]
+    models = ["lt", "alldiff3", "queens_like", "shared_twice", "count", "circuit3", "max_eq", "magic_like", "relation_alldiff", "element_iv", "gcc", "lt_zero_mid"]
     if tier == "quick":
-        models = ["lt", "alldiff3", "shared_twice", "circuit3", "magic_like", "relation_alldiff"]
+        models = ["lt", "alldiff3", "shared_twice", "circuit3", "magic_like", "relation_alldiff", "lt_zero_mid"]
     batch = []
     cfgs = [{}, dict(cons="shaving", domh="mid"), dict(varh="smallest", domh="max")]
     k = seed
